@@ -42,6 +42,12 @@ func init() {
 			Run: func(P *Program, R *Report) { decodedProductRule(P, R, "C18.i") }},
 		Rule{ID: "C18.f", Explain: "XML tags of PublicKey/PrivateKey: no duplicate or empty element names; every field that is not serialised (xml:\"-\") is recomputed by the loaders.",
 			Run: func(P *Program, R *Report) { xmlTagsRule(P, R) }},
+		Rule{ID: "C18.k", Explain: "encoders fill what they size: in packages revocation, gabi and gabikeys every slice made with a computed length and filed in a struct field (compressedEventList.E, ...) has every element visited by a full walk from 0 by 1 over a collection of that length (same rule as C17.k); a walk that starts at 1 encodes a nil first element.",
+			Run: func(P *Program, R *Report) {
+				for _, pkg := range []string{"revocation", "gabi", "gabikeys"} {
+					madeSlicesFilledRule(P, R, "C18.k", pkg, 0)
+				}
+			}},
 		Rule{ID: "C18.j", Explain: "decoding into a value that was used before leaves nothing of its previous content: in Update.uncompress and EventList.uncompress every exported field of the receiver that the function assigns at all is assigned on every path to its return (a field that is only replaced when the message carries it keeps the events of the previous message).",
 			Run: func(P *Program, R *Report) { decodersResetRule(P, R, "C18.j") }},
 	)
